@@ -6,7 +6,9 @@ package main
 
 import (
 	"fmt"
+	"math"
 	"math/big"
+	"math/bits"
 	"strings"
 	"sync"
 
@@ -64,7 +66,8 @@ func ctxConstants() []*Opnd {
 			mkCoef(false, mustInt("1225"+strings.Repeat("0", 35)+"1"), -39, 40, ToNearestAway), // 9  1.225 0…0 1: a tie at 3 digits decided by a digit two words further down
 			mkCoef(false, mustInt("1"+strings.Repeat("0", 28)+"1"), -29, 30, 0),                // 10 1+1e-29
 			mkCoef(false, mustInt(strings.Repeat("9", 29)), -29, 29, 0),                        // 11 1-1e-29
-			mkInt64(-1, 0, 1, 0), // 12 -1
+			mkInt64(-1, 0, 1, 0),       // 12 -1
+			mkInt64(10017225, 0, 9, 0), // 13 3165²: the root is an exact tie at 3 digits
 		}
 	}
 	return ctxConsts
@@ -84,7 +87,7 @@ func ctxOps() []cop {
 		for _, t := range [][3]int{{4, 5, 8}, {3, 7, 5}, {7, 4, 0}, {-1, 5, 6}, {5, 5, -1}, {10, 11, 12}, {3, 4, 9}} {
 			ops = append(ops, cop{name: fmt.Sprintf("z%d=FMA(%s,%s,%s)", r, cname(t[0]), cname(t[1]), cname(t[2])), recv: r, kind: ckArith, op: opFMA, srcs: []int{t[0], t[1], t[2]}})
 		}
-		for _, x := range []int{1, 4, 8, 7, 2, -1} {
+		for _, x := range []int{1, 4, 8, 7, 2, -1, 13} {
 			ops = append(ops, cop{name: fmt.Sprintf("z%d=Sqrt(%s)", r, cname(x)), recv: r, kind: ckArith, op: opSqrt, srcs: []int{x}})
 		}
 		for _, op := range []int{opNeg, opAbs, opSet} {
@@ -116,7 +119,7 @@ func cname(i int) string {
 	if i < 0 {
 		return "other"
 	}
-	return []string{"-Inf", "-1.5", "-0", "+0", "2.25", "1.23456", "1e-3", "+Inf", "long40", "1.225(0×35)1", "1+1e-29", "1-1e-29", "-1"}[i]
+	return []string{"-Inf", "-1.5", "-0", "+0", "2.25", "1.23456", "1e-3", "+Inf", "long40", "1.225(0×35)1", "1+1e-29", "1-1e-29", "-1", "3165²"}[i]
 }
 
 func newCState() *cstate {
@@ -514,6 +517,67 @@ func ctxLayers(tier string) []Layer {
 					}
 					if c.Done() {
 						return
+					}
+				}
+			},
+		})
+	}
+	// A1: the context's own attributes for every kind of precision request (exact operations only, so that
+	// a context at MaxPrec never has to produce MaxPrec digits)
+	{
+		reqs := []uint{0, 1, 2, 34, 1 << 31, math.MaxUint32 - 1, math.MaxUint32}
+		if bits.UintSize == 64 {
+			one := uint(1)
+			reqs = append(reqs, one<<32, one<<32+1, one<<32+33, one<<33, 3*(one<<32), one<<40, one<<63, ^uint(0), ^uint(0)-(one<<32)+1)
+		}
+		layers = append(layers, Layer{
+			Name:   "A1-context-attributes",
+			Units:  len(reqs),
+			Bounds: fmt.Sprintf("context.New(p, m) and (*Context).SetPrec(p) for p in %d requests (0, small, 2^31, MaxPrec−1, MaxPrec, 2^32, 2^32+1, 2^32+33, 2^33, 3·2^32, 2^40, 2^63, MaxUint, …) × 6 modes: Prec() is 34 for 0 and min(p, MaxPrec) otherwise, Mode() kept; an exact 38-digit product and a 20-digit sum come out exact (or correctly rounded) at that precision", len(reqs)),
+			Run: func(c *Ctx, u int) {
+				p := reqs[u]
+				want := uint(34)
+				if p != 0 {
+					want = p
+					if want > math.MaxUint32 {
+						want = math.MaxUint32
+					}
+				}
+				a := mkCoef(false, mustInt("1234567890123456789"), 0, 19, 0)
+				b := mkCoef(true, mustInt("9876543210987654321"), -5, 19, 0)
+				for _, m := range M6 {
+					for variant := 0; variant < 2; variant++ {
+						if c.Skip() {
+							continue
+						}
+						var cx dctx.Context
+						if variant == 0 {
+							cx = dctx.New(p, decimal.RoundingMode(m))
+						} else {
+							cx = dctx.New(7, decimal.RoundingMode(m))
+							cx.SetPrec(p)
+						}
+						key := fmt.Sprintf("context precision request %d (variant %d) mode=%s", p, variant, modeName(m))
+						c.NonTrivial()
+						if cx.Prec() != want || uint8(cx.Mode()) != m {
+							c.Fail(key, fmt.Sprintf("Prec() = %d Mode() = %v, want %d %s", cx.Prec(), cx.Mode(), want, modeName(m)))
+							continue
+						}
+						z := new(Dec)
+						pv, _ := protect(func() { cx.Mul(z, a.Build(), b.Build()) })
+						exp := ModelMul(a.V, b.V, uint32(want), m)
+						if msg := judgeFull(Observe(z), pv, false, exp, true); msg != "" {
+							c.Fail(key+" Mul", msg)
+						}
+						z2 := buildPre(preLonger, 3, ToZero)
+						pv, _ = protect(func() { cx.Add(z2, a.Build(), b.Build()) })
+						exp = ModelAdd(a.V, b.V, uint32(want), m)
+						if msg := judgeFull(Observe(z2), pv, false, exp, true); msg != "" {
+							c.Fail(key+" Add", msg)
+						}
+						if o := Observe(z2); pv == nil && (uint(o.Prec) != want || o.Mode != m) {
+							c.Fail(key+" Add attributes", fmt.Sprintf("result has precision %d mode %s", o.Prec, modeName(o.Mode)))
+						}
 					}
 				}
 			},
